@@ -1,5 +1,4 @@
-import LolHtml.Lemmas.ChunkParse2
-import LolHtml.Thm.C01
+import LolHtml.Lemmas.ChunkMain
 /-!
 # C02 — chunk-boundary invariance, and the schedule-independence half of C09
 
@@ -159,7 +158,7 @@ example (tbl : Table) (last : Bool) :
     ⟨Nat.le_refl _, rfl, (fun g => by cases g), rfl, (fun g => by cases g), trivial, trivial, trivial, (fun g => by cases g)⟩,
     rfl, rfl⟩
 
-/-! ## What remains: the statements to reach -/
+/-! ## The step theorem -/
 
 /-- **C02_step (the "step horizon" theorem).** One state-function invocation from related machines
 (`BRel`): either both runs make the same step (`LockOut`: same signal — on a directive change also related
@@ -181,79 +180,192 @@ theorem C02_step {κ : Type} {env : Env κ} {inpS inpW : Bytes} {δ : Nat} {K : 
       BreakOut env.tbl fs env.ops Loc inpS inpW δ d x0 mw0 (stateFn env inpS ms)) :=
   stateFn_sim F hops hwf eoi hb hK hloc hil heoi
 
-/-- outcome of a sequence of calls: the first result that is not `ok` -/
-def outcome : List CallRes → CallRes
-  | [] => .ok
-  | .ok :: rest => outcome rest
-  | r :: _ => r
+/-! ## The parse-level resumption theorems
 
-/-- no call hit a model panic branch (this includes running out of the model's fuel), the memory limit is
-not reached -/
-def Clean (rs : List CallRes) : Prop := ∀ r ∈ rs, (∀ s, r ≠ .err (.panic s)) ∧ r ≠ .err .mem
+`PRunsM env inp last p m p' r`: the big-step (fuel-free) semantics of `Parser::parse` from parser `p` whose
+active machine is `m`; `pruns_of_parseLoop`: the executable `Parser.parseLoop` computes it unless it runs out
+of the model's fuel. -/
 
-/-- absolute form of a token: attribute outlines re-based by the slice offset -/
-def normToken : Token → Token
-  | .startTag n as ns sc raw src base => .startTag n (as.map fun a => (a.1, a.2.1, shA base a.2.2)) ns sc raw src 0
-  | t => t
+/-- **C02_resumption, inputs ending together.** Parsing the split input `inpS` and the whole input
+`pre ++ inpS` from related parsers: the split parse hits a panic branch, or the whole parse has a result and
+the results are related (`ResRel`: the same error, or consumed counts that differ by the frame minus the text
+debt `d'` — here always `0` —, related sinks and, when not last, parsers related in the frame of what is kept). -/
+theorem C02_resumption_closed {κ : Type} {env : Env κ} {inpS inpW : Bytes} {δ : Nat} {K : Nat → κ → κ → Prop}
+    {Loc : κ → Nat → Nat → TextType → Prop} (F : Frame inpS inpW δ) (hcl : Closed inpS inpW δ)
+    (hops : OpsSim env.ops inpS inpW δ K Loc) {fs : FlagMap} (hwf : WfChunkWith env.tbl fs = true) (last : Bool)
+    {ps ps' : Parser κ} {ms : M κ} {rs : Except Err Nat} (hr : PRunsM env inpS last ps ms ps' rs) {d skip : Nat}
+    {pw : Parser κ} {mw : M κ} (hp : PRelM env.tbl fs inpW δ d skip ps ms pw mw) (hl : ms.c.isLast = last)
+    (hK : K d ms.x.sink mw.x.sink)
+    (hloc : 0 < d → Loc ms.x.sink ms.x.prevConsumed (lexStart ms.r) ms.c.lastTextType) :
+    PanicRes rs ∨ ∃ pw' rw, PRunsM env inpW last pw mw pw' rw ∧ ResRel env.tbl fs inpW δ K Loc last ps' pw' rs rw :=
+  plock F hcl hops hwf last hr hp hl hK hloc
 
-/-- what a controller may read of an `AuxStartTagInfo`: the attribute names and values, self-closing -/
-def normAux (i : AuxInfo) : List (Option Bytes × Option Bytes) × Bool :=
-  (i.attrs.map fun a => (checkedSlice i.input a.name, checkedSlice i.input a.value), i.selfClosing)
+/-- **C02_resumption, one cut.** Parsing the split input `inpS` (not the last one) against the whole input
+`pre ++ inpS ++ post`: a panic branch; or the same error in both runs; or the split parse returns `ok c` and
+the whole parse, *inside* its `run_parsing_loop`, has reached a machine `mw1` (every result of the whole parse
+from `mw1` is a result of the whole parse from `mw`) to which the split parser — as it will be resumed by the
+next `parse` — is related in the frame `δ + c`; `SinkBrk`: what the split sink received in the breaking step. -/
+theorem C02_resumption {κ : Type} {env : Env κ} {inpS inpW : Bytes} {δ : Nat} {K : Nat → κ → κ → Prop}
+    {Loc : κ → Nat → Nat → TextType → Prop} (F : Frame inpS inpW δ)
+    (hops : OpsSim env.ops inpS inpW δ K Loc) {fs : FlagMap} (hwf : WfChunkWith env.tbl fs = true)
+    {ps ps' : Parser κ} {ms : M κ} {rs : Except Err Nat} (hr : PRunsM env inpS false ps ms ps' rs) {d skip : Nat}
+    {pw : Parser κ} {mw : M κ} (hp : PRelM env.tbl fs inpW δ d skip ps ms pw mw) (hl : ms.c.isLast = false)
+    (hK : K d ms.x.sink mw.x.sink)
+    (hloc : 0 < d → Loc ms.x.sink ms.x.prevConsumed (lexStart ms.r) ms.c.lastTextType) :
+    PanicRes rs ∨
+    (∃ e pw', rs = .error e ∧ PRunsM env inpW false pw mw pw' (.error e)) ∨
+    (∃ c, rs = .ok c ∧ ∃ (d1 d' skip' : Nat) (x0 : Ctx κ) (pwk : Parser κ) (mw1 : M κ),
+      (∀ p' r, PRunsM env inpW false pwk mw1 p' r → PRunsM env inpW false pw mw p' r) ∧
+      K d1 x0.sink mw1.x.sink ∧
+      SinkBrk env.ops Loc inpS d1 d' x0 ps'.x.sink c (ps'.machine false).c.lastTextType ∧
+      lexStart (ps'.machine false).r = 0 ∧ ps'.x.prevConsumed = x0.prevConsumed + c ∧
+      PRelM env.tbl fs inpW (δ + c) d' skip' ps' (ps'.machine false) pwk mw1) :=
+  popen F hops hwf hr hp hl hK hloc
 
-/-- **The class of controllers**: behaviour depends on tokens and aux-info only through their absolute
-forms, and there is a relation `E` on controller states ("equal up to the fragmentation of the open text
-node") that every operation respects and under which delivering a text chunk in two pieces is the same as
-delivering it in one; text chunks never fail and are serialised to their own bytes. -/
-structure TextBlind {γ : Type} (ctl : Controller γ) (E : γ → γ → Prop) : Prop where
-  refl : ∀ g, E g g
-  token_norm : ∀ g t t', normToken t = normToken t' → ctl.token g t = ctl.token g t'
-  aux_norm : ∀ g i i', normAux i = normAux i' → ctl.auxInfo g i = ctl.auxInfo g i'
-  start : ∀ g g' n ns, E g g' → (ctl.startTag g n ns).2 = (ctl.startTag g' n ns).2 ∧ E (ctl.startTag g n ns).1 (ctl.startTag g' n ns).1
-  «end» : ∀ g g' n, E g g' → (ctl.endTag g n).2 = (ctl.endTag g' n).2 ∧ E (ctl.endTag g n).1 (ctl.endTag g' n).1
-  aux : ∀ g g' i, E g g' → (ctl.auxInfo g i).2 = (ctl.auxInfo g' i).2 ∧ E (ctl.auxInfo g i).1 (ctl.auxInfo g' i).1
-  emit : ∀ g g', E g g' → ctl.shouldEmit g = ctl.shouldEmit g'
-  flags : ∀ g g', E g g' → ctl.initialFlags g = ctl.initialFlags g'
-  tok : ∀ g g' t, E g g' → (∀ b tt l s, t ≠ .text b tt l s) →
-    (ctl.token g t).2.chunks = (ctl.token g' t).2.chunks ∧ (ctl.token g t).2.err = (ctl.token g' t).2.err ∧
-    (ctl.token g t).2.nextEncoding = (ctl.token g' t).2.nextEncoding ∧ E (ctl.token g t).1 (ctl.token g' t).1
-  text_ok : ∀ g b tt l s, (ctl.token g (.text b tt l s)).2.err = none ∧
-    (ctl.token g (.text b tt l s)).2.nextEncoding = none ∧ (ctl.token g (.text b tt l s)).2.chunks.flatten = b
-  text_split : ∀ g g' b1 b2 tt l s, E g g' →
-    E (ctl.token (ctl.token g (.text b1 tt false ⟨s, s + b1.length⟩)).1 (.text b2 tt l ⟨s + b1.length, s + b1.length + b2.length⟩)).1
-      (ctl.token g' (.text (b1 ++ b2) tt l ⟨s, s + b1.length + b2.length⟩)).1
-  text_last : ∀ g g' tt s, E g g' →
-    E (ctl.token g (.text [] tt true ⟨s, s⟩)).1 (ctl.token g' (.text [] tt true ⟨s, s⟩)).1
-  handleEnd : ∀ g g', E g g' → (ctl.handleEnd g).2 = (ctl.handleEnd g').2 ∧ E (ctl.handleEnd g).1 (ctl.handleEnd g').1
+/-- **The dispatcher is a sink for the resumption theorems**, for every controller of the class `TextBlind`. -/
+theorem C02_dispatcher {γ : Type} {ctl : Controller γ} {E : γ → γ → Prop} {inpS inpW : Bytes} {δ : Nat}
+    (F : Frame inpS inpW δ) (hcl : TextBlind ctl E) : OpsSim (dispOps ctl) inpS inpW δ (DK ctl E inpS inpW δ) DLoc :=
+  dispOps_sim F hcl
 
-/-- Controllers that ignore text tokens entirely, with `E := (· = ·)`, are in the class; so is the logging
-observer of lane `lex` (`Lane.Lex.ctl`) with `E` := "equal after flushing `textAcc` into the state", whose
-log is the canonical merged form of the event sequence. (Instances to be proved with the theorem.) -/
-def IgnoresText {γ : Type} (ctl : Controller γ) : Prop :=
-  ∀ g b tt l s, ctl.token g (.text b tt l s) = (g, { chunks := if b.isEmpty then [] else [b] })
+/-! ## C02 and C09
 
-/-- **C02 (full statement).** Two chunkings of the same document, a table passing `WfChunk`, any tag
-configuration, any settings, a controller in the class: if neither run hits a panic branch of the model or
-the memory limit, both runs have the same outcome, the sink receives the same bytes, and the final
-controller states are `E`-related (for a logging controller: the same canonical event sequence, with
-absolute source ranges). -/
-def C02_chunk_invariance_statement : Prop :=
-  ∀ (γ : Type) (w : World γ) (E : γ → γ → Prop) (g : γ) (cfg : Settings) (cs₁ cs₂ : List Bytes),
-    WfChunk w.tbl = true → TextBlind w.ctl E → cs₁.flatten = cs₂.flatten →
-    let r₁ := C01.run w (C01.Rewriter.new w g cfg) cs₁
-    let r₂ := C01.run w (C01.Rewriter.new w g cfg) cs₂
-    Clean r₁.2 → Clean r₂.2 →
-    outcome r₁.2 = outcome r₂.2 ∧
-    (outcome r₁.2 = .ok → sinkBytes r₁.1.sink = sinkBytes r₂.1.sink ∧ E r₁.1.stream.disp.ctl r₂.1.stream.disp.ctl)
+`outcome rs`: the first result of a call sequence that is not `ok`. `Clean rs`: no call returned a model
+panic (`Err.panic`: a Rust debug assertion / slice out of range, or the model's own fuel) or `Err.mem`.
 
-/-- **C09, schedule independence (full statement).** After any sequence of successful writes, the number
-of bytes the sink has received is what a fresh rewriter given the same bytes in one write has emitted. -/
-def C09_schedule_independent_statement : Prop :=
-  ∀ (γ : Type) (w : World γ) (E : γ → γ → Prop) (g : γ) (cfg : Settings) (cs : List Bytes),
-    WfChunk w.tbl = true → TextBlind w.ctl E →
-    let r₁ := C01.writeAll w (C01.Rewriter.new w g cfg) cs
-    let r₂ := (C01.Rewriter.new w g cfg).write w cs.flatten
-    Clean r₁.2 → Clean [r₂.2] → (∀ r ∈ r₁.2, r = .ok) →
-    r₂.2 = .ok ∧ (sinkBytes r₁.1.sink).length = (sinkBytes r₂.1.sink).length
+The class of controllers is `Chunk.TextBlind ctl E` (Lemmas/ChunkDisp.lean): `E` — "equal up to the
+fragmentation of the open text node" — is reflexive and transitive and respected by every controller
+operation; tokens are observed through their absolute form (`normToken`), doctype tokens through
+`force_quirks`, raw bytes and source range, attribute buffers through their in-range slices; content is never
+removed (`shouldEmit = true`); text chunks never fail, never switch the encoding, are serialised to their own
+bytes, and delivering a text chunk in two pieces is `E`-equivalent to delivering it in one. -/
+
+/-- **C02, any chunking against one write.** -/
+theorem C02_chunk_vs_single {γ : Type} (w : World γ) (E : γ → γ → Prop) (g : γ) (cfg : Settings) (cs : List Bytes)
+    (hwf : WfChunk w.tbl = true) (hcl : TextBlind w.ctl E) (hne : cs ≠ [])
+    (hc : Clean (C01.run w (C01.Rewriter.new w g cfg) cs).2)
+    (hcW : Clean (C01.run w (C01.Rewriter.new w g cfg) [cs.flatten]).2) :
+    outcome (C01.run w (C01.Rewriter.new w g cfg) cs).2 = outcome (C01.run w (C01.Rewriter.new w g cfg) [cs.flatten]).2 ∧
+    (outcome (C01.run w (C01.Rewriter.new w g cfg) cs).2 = .ok →
+      sinkBytes (C01.run w (C01.Rewriter.new w g cfg) cs).1.sink =
+        sinkBytes (C01.run w (C01.Rewriter.new w g cfg) [cs.flatten]).1.sink ∧
+      E (C01.run w (C01.Rewriter.new w g cfg) cs).1.stream.disp.ctl
+        (C01.run w (C01.Rewriter.new w g cfg) [cs.flatten]).1.stream.disp.ctl) := by
+  rcases chunking_vs_single (fs := flagMap w.tbl) hcl hwf g cfg cs hne with h | h | h
+  · exact absurd hc (not_clean_of_uncleanL h)
+  · exact absurd hcW (not_clean_of_uncleanL h)
+  · exact h
+
+/-- **C02 (chunk-boundary invariance).** Two chunkings of the same document: the same outcome, and on
+success the same bytes at the sink and controller states both `E`-related to that of the single-write run
+(for `E := Eq`: the same final controller state). -/
+theorem C02_chunk_invariance {γ : Type} (w : World γ) (E : γ → γ → Prop) (g : γ) (cfg : Settings) (cs₁ cs₂ : List Bytes)
+    (hwf : WfChunk w.tbl = true) (hcl : TextBlind w.ctl E) (h1 : cs₁ ≠ []) (h2 : cs₂ ≠ [])
+    (hflat : cs₁.flatten = cs₂.flatten)
+    (hc1 : Clean (C01.run w (C01.Rewriter.new w g cfg) cs₁).2)
+    (hc2 : Clean (C01.run w (C01.Rewriter.new w g cfg) cs₂).2)
+    (hcW : Clean (C01.run w (C01.Rewriter.new w g cfg) [cs₁.flatten]).2) :
+    outcome (C01.run w (C01.Rewriter.new w g cfg) cs₁).2 = outcome (C01.run w (C01.Rewriter.new w g cfg) cs₂).2 ∧
+    (outcome (C01.run w (C01.Rewriter.new w g cfg) cs₁).2 = .ok →
+      sinkBytes (C01.run w (C01.Rewriter.new w g cfg) cs₁).1.sink =
+        sinkBytes (C01.run w (C01.Rewriter.new w g cfg) cs₂).1.sink ∧
+      ∃ gW, E (C01.run w (C01.Rewriter.new w g cfg) cs₁).1.stream.disp.ctl gW ∧
+        E (C01.run w (C01.Rewriter.new w g cfg) cs₂).1.stream.disp.ctl gW) := by
+  obtain ⟨a1, a2⟩ := C02_chunk_vs_single w E g cfg cs₁ hwf hcl h1 hc1 hcW
+  obtain ⟨b1, b2⟩ := C02_chunk_vs_single w E g cfg cs₂ hwf hcl h2 hc2 (by rw [← hflat]; exact hcW)
+  rw [← hflat] at b1 b2
+  refine ⟨by rw [a1, b1], fun hok => ?_⟩
+  obtain ⟨a3, a4⟩ := a2 hok
+  obtain ⟨b3, b4⟩ := b2 (by rw [b1, ← a1]; exact hok)
+  exact ⟨by rw [a3, b3], _, a4, b4⟩
+
+/-- **C09 (schedule independence).** After any sequence of successful writes the sink has received exactly
+the bytes that a fresh rewriter given the same bytes in ONE write has emitted (and that write succeeds). -/
+theorem C09_schedule_independent {γ : Type} (w : World γ) (E : γ → γ → Prop) (g : γ) (cfg : Settings) (cs : List Bytes)
+    (hwf : WfChunk w.tbl = true) (hcl : TextBlind w.ctl E) (hne : cs ≠ [])
+    (hall : ∀ r ∈ (C01.writeAll w (C01.Rewriter.new w g cfg) cs).2, r = .ok)
+    (hcW : Clean [((C01.Rewriter.new w g cfg).write w cs.flatten).2]) :
+    ((C01.Rewriter.new w g cfg).write w cs.flatten).2 = .ok ∧
+    sinkBytes (C01.writeAll w (C01.Rewriter.new w g cfg) cs).1.sink =
+      sinkBytes ((C01.Rewriter.new w g cfg).write w cs.flatten).1.sink := by
+  rcases writes_vs_single (fs := flagMap w.tbl) hcl hwf g cfg cs hne hall with h | ⟨h1, h2, _⟩
+  · exfalso
+    obtain ⟨r1, _, _⟩ := write_res (w := w) (C01.Rewriter.new w g cfg) rfl cs.flatten
+    have hcl' := hcW _ List.mem_cons_self
+    rw [r1] at hcl'
+    rcases h with ⟨m, hm⟩ | hm
+    · exact hcl'.1 m (by
+        show callRes ((Stream.new w g cfg).write w cs.flatten).2 = _
+        rw [hm]; rfl)
+    · exact hcl'.2 (by
+        show callRes ((Stream.new w g cfg).write w cs.flatten).2 = _
+        rw [hm]; rfl)
+  · exact ⟨h1, h2⟩
+
+/-! ## Controllers of the class -/
+
+/-- a controller that observes tokens only through their absolute form, never removes content, and ignores
+text chunks (passes them through) is in the class, with `E := Eq` -/
+theorem textBlind_of_ignoresText {γ : Type} (ctl : Controller γ)
+    (token_norm : ∀ g t t', normToken t = normToken t' → ctl.token g t = ctl.token g t')
+    (token_doctype : ∀ g n p s n' p' s' fq raw src,
+      ctl.token g (.doctype n p s fq raw src) = ctl.token g (.doctype n' p' s' fq raw src))
+    (aux_norm : ∀ g i i', AuxRefines i i' → EPanic (ctl.auxInfo g i).2 ∨ ctl.auxInfo g i = ctl.auxInfo g i')
+    (emit : ∀ g, ctl.shouldEmit g = true)
+    (text : ∀ g b tt l s, (ctl.token g (.text b tt l s)).1 = g ∧ (ctl.token g (.text b tt l s)).2.err = none ∧
+      (ctl.token g (.text b tt l s)).2.nextEncoding = none ∧ (ctl.token g (.text b tt l s)).2.chunks.flatten = b) :
+    TextBlind ctl Eq where
+  refl := fun _ => rfl
+  trans := fun _ _ _ h1 h2 => h1.trans h2
+  token_norm := token_norm
+  token_doctype := token_doctype
+  aux_norm := aux_norm
+  start := fun g g' n ns h => by subst h; exact ⟨rfl, rfl⟩
+  endT := fun g g' n h => by subst h; exact ⟨rfl, rfl⟩
+  aux := fun g g' i h => by subst h; exact ⟨rfl, rfl⟩
+  emit := emit
+  flags := fun g g' h => by subst h; rfl
+  tok := fun g g' t h _ => by subst h; exact ⟨rfl, rfl, rfl, rfl⟩
+  text_ok := fun g b tt l s => (text g b tt l s).2
+  text_cong := fun g g' b tt l s h => by subst h; rfl
+  text_split := fun g b1 b2 tt l s => by rw [(text _ _ _ _ _).1, (text _ _ _ _ _).1, (text _ _ _ _ _).1]
+  handleEnd := fun g g' h => by subst h; exact ⟨rfl, rfl⟩
+
+/-- the constant-flags observers of C01 (pure tag scanning for flags `0`, full lexing for flags `31`, and
+everything in between) are in the class -/
+theorem constCtl_textBlind (f : Nat) : TextBlind (C01.constCtl f) Eq :=
+  textBlind_of_ignoresText _
+    (fun g t t' h => by
+      have hr : ∀ t : Token, (normToken t).raw = t.raw := fun t => by cases t <;> rfl
+      have : t.raw = t'.raw := by rw [← hr t, ← hr t', h]
+      simp [C01.constCtl, this])
+    (fun _ _ _ _ _ _ _ _ _ _ => rfl)
+    (fun _ _ _ _ => Or.inr rfl)
+    (fun _ => rfl)
+    (fun _ b _ _ _ => ⟨rfl, rfl, rfl, by simp [C01.constCtl, Token.raw]⟩)
+
+/-- **C02 for the code's current tables**, constant capture flags `f` (the *partial* theorem of the brief: pure
+scanner run `f = 0`, pure lexer run `f = 31`; arbitrary input and chunking). -/
+theorem C02_chunk_invariance_partial (f : Nat) (cfg : Settings) (cs₁ cs₂ : List Bytes) (h1 : cs₁ ≠ []) (h2 : cs₂ ≠ [])
+    (hflat : cs₁.flatten = cs₂.flatten)
+    (hc1 : Clean (C01.run (C01.genWorld f) (C01.Rewriter.new (C01.genWorld f) () cfg) cs₁).2)
+    (hc2 : Clean (C01.run (C01.genWorld f) (C01.Rewriter.new (C01.genWorld f) () cfg) cs₂).2)
+    (hcW : Clean (C01.run (C01.genWorld f) (C01.Rewriter.new (C01.genWorld f) () cfg) [cs₁.flatten]).2) :
+    outcome (C01.run (C01.genWorld f) (C01.Rewriter.new (C01.genWorld f) () cfg) cs₁).2 =
+      outcome (C01.run (C01.genWorld f) (C01.Rewriter.new (C01.genWorld f) () cfg) cs₂).2 ∧
+    (outcome (C01.run (C01.genWorld f) (C01.Rewriter.new (C01.genWorld f) () cfg) cs₁).2 = .ok →
+      sinkBytes (C01.run (C01.genWorld f) (C01.Rewriter.new (C01.genWorld f) () cfg) cs₁).1.sink =
+        sinkBytes (C01.run (C01.genWorld f) (C01.Rewriter.new (C01.genWorld f) () cfg) cs₂).1.sink) := by
+  obtain ⟨a, b⟩ := C02_chunk_invariance (C01.genWorld f) Eq () cfg cs₁ cs₂ C02_wf_gen (constCtl_textBlind f) h1 h2 hflat hc1 hc2 hcW
+  exact ⟨a, fun h => (b h).1⟩
+
+/-- **C09 for the code's current tables**, constant capture flags. -/
+theorem C09_schedule_independent_partial (f : Nat) (cfg : Settings) (cs : List Bytes) (hne : cs ≠ [])
+    (hall : ∀ r ∈ (C01.writeAll (C01.genWorld f) (C01.Rewriter.new (C01.genWorld f) () cfg) cs).2, r = .ok)
+    (hcW : Clean [((C01.Rewriter.new (C01.genWorld f) () cfg).write (C01.genWorld f) cs.flatten).2]) :
+    ((C01.Rewriter.new (C01.genWorld f) () cfg).write (C01.genWorld f) cs.flatten).2 = .ok ∧
+    sinkBytes (C01.writeAll (C01.genWorld f) (C01.Rewriter.new (C01.genWorld f) () cfg) cs).1.sink =
+      sinkBytes ((C01.Rewriter.new (C01.genWorld f) () cfg).write (C01.genWorld f) cs.flatten).1.sink :=
+  C09_schedule_independent (C01.genWorld f) Eq () cfg cs C02_wf_gen (constCtl_textBlind f) hne hall hcW
 
 /-! ## Instances of the full statements on the generated table (evidence, by evaluation)
 
